@@ -16,7 +16,7 @@ RULE = {
            "(+ error pattern for 'detect')."
 }
 RULE["C20"] += "  'inplace': one bytearray / list / memoryview object changed in place and checksummed again, data iterators that call crc7() themselves; value cases are replayed behind the two preceding messages."
-REQUIRED = {"C20": {"shorter-message-after-longer-one": 500, "same-memoryview-object-rechecked": 200, "pair-transition": 65536, "random-message": 500, "same-object-rechecked": 1000, "nested-call": 200,
+REQUIRED = {"C20": {"long-zero-run-behind-a-prefix": 300, "shorter-message-after-longer-one": 500, "same-memoryview-object-rechecked": 200, "pair-transition": 65536, "random-message": 500, "same-object-rechecked": 1000, "nested-call": 200,
                     "linearity-pair": 200, "single-bit": 500, "double-bit": 5000, "burst": 2000}}
 ASSUMPTIONS = {"C20": ["reference CRC is a 12-line bit-serial shift register written from the statement, "
                        "checked in setup self-test against the navX protocol example vectors"]}
@@ -318,8 +318,13 @@ def run_shard(spec):
                 n = rng.randrange(12, 300)
             else:
                 n = rng.randrange(300, 4097)
-            style = rng.randrange(4)
-            if style == 0:
+            style = rng.randrange(5)
+            if style == 4:
+                # a long run of zero bytes behind a non-zero prefix (the register keeps cycling through its 127 non-zero states)
+                msg = rng.randbytes(rng.randrange(1, 6)) + bytes(rng.choice([126, 127, 128, 129, 254, 255, 256, 381, 1000])) \
+                    + rng.randbytes(rng.randrange(0, 4))
+                acc.ev("long-zero-run-behind-a-prefix")
+            elif style == 0:
                 msg = bytes(rng.randrange(256) for _ in range(n))
             elif style == 1:
                 msg = bytes(rng.choice((0, 0xFF, 0x80, 1)) for _ in range(n))
